@@ -38,8 +38,22 @@ func pickValues(vals []*refcodec.RecValue, n, maxLen int) []*refcodec.RecValue {
 		return ok
 	}
 	var out []*refcodec.RecValue
+	seen := map[*refcodec.RecValue]bool{}
 	for i := 0; i < n; i++ {
-		out = append(out, ok[i*(len(ok)-1)/(n-1)])
+		v := ok[i*(len(ok)-1)/(n-1)]
+		out = append(out, v)
+		seen[v] = true
+	}
+	// and the value with the most content (longest encoding within the limit): empty strings and containers hide size errors
+	var longest *refcodec.RecValue
+	best := -1
+	for _, v := range ok {
+		if l := len(encodeRef(v).B); l > best {
+			best, longest = l, v
+		}
+	}
+	if longest != nil && !seen[longest] {
+		out = append(out, longest)
 	}
 	return out
 }
@@ -56,6 +70,20 @@ func implEncoding(b *driver.Bound, rv *refcodec.RecValue) ([]byte, error) {
 		return nil, nil
 	}
 	return out, nil
+}
+
+// streamEncoding returns what EncodeBebop writes for the value (nil if it panics or fails: C01/C02/C08 report that).
+func streamEncoding(b *driver.Bound, rv *refcodec.RecValue) ([]byte, error) {
+	rec, err := b.Fresh(rv)
+	if err != nil {
+		return nil, err
+	}
+	var buf bytes.Buffer
+	o := driver.Guard(func() error { return rec.EncodeBebop(&buf) })
+	if o.Panicked || o.Err != nil {
+		return nil, nil
+	}
+	return buf.Bytes(), nil
 }
 
 // ---- C05: DecodeBebop consumes exactly one record under any read fragmentation -------------------
@@ -104,7 +132,8 @@ func (w *W) c05(groups [][]*driver.Bound) {
 					var wants []string
 					bad := false
 					for _, it := range st {
-						enc, err := implEncoding(it.b, it.rv)
+						// the stream is what EncodeBebop writes (the property's own wording); C02 compares it with MarshalBebop
+						enc, err := streamEncoding(it.b, it.rv)
 						if err != nil {
 							w.res.HarnessErr = err.Error()
 							return
